@@ -100,7 +100,7 @@ Definition gotten (tr : list (tid * cev)) : list qitem :=
   flat_map (fun e => match snd e with CGet q => [q] | _ => [] end) tr.
 Definition stopsq (l : list qitem) : list nat :=
   flat_map (fun q => match q with QStop w => [w] | _ => [] end) l.
-Definition to3 (x : nat * nat * option nat * tstamp * bool) : nat * nat * option nat * tstamp := fst x.
+Definition to3 (x : nat * nat * rcode * tstamp * bool) : nat * nat * rcode * tstamp := fst x.
 
 Lemma fw_app w a b : fw w (a ++ b) = fw w a ++ fw w b.
 Proof. apply filter_app. Qed.
@@ -142,21 +142,21 @@ Lemma forallb_snoc {A} (p : A -> bool) l x : forallb p (l ++ [x]) = forallb p l 
 Proof. rewrite forallb_app. simpl. rewrite andb_true_r. reflexivity. Qed.
 
 (* what a worker puts *)
-Lemma emits_owner w base s : Forall (fun q => qowner q = w) (emits w base s).
+Lemma emits_owner rt w base s : Forall (fun q => qowner q = w) (emits rt w base s).
 Proof.
   induction s as [|[id st own a|] r IH]; simpl; [constructor | constructor; [reflexivity | exact IH] |].
   destruct base; repeat constructor.
 Qed.
-Lemma emits_nostop w base s : stopsq (emits w base s) = [].
+Lemma emits_nostop rt w base s : stopsq (emits rt w base s) = [].
 Proof. induction s as [|[id st own a|] r IH]; simpl; [reflexivity | exact IH | destruct base; reflexivity]. Qed.
-Lemma emits_length w base s : length (emits w base s) <= length s + 2.
+Lemma emits_length rt w base s : length (emits rt w base s) <= length s + 2.
 Proof. induction s as [|[id st own a|] r IH]; simpl; [lia | lia | destruct base; simpl; lia]. Qed.
-Lemma worker_puts_owner w base s : Forall (fun q => qowner q = w) (worker_puts w base s).
+Lemma worker_puts_owner rt w base s : Forall (fun q => qowner q = w) (worker_puts rt w base s).
 Proof.
   unfold worker_puts. constructor; [reflexivity|]. apply Forall_app. split; [apply emits_owner | repeat constructor].
 Qed.
-Lemma worker_puts_length w base s : length (worker_puts w base s) <= length s + 4.
-Proof. unfold worker_puts. simpl. rewrite app_length. simpl. pose proof (emits_length w base s). lia. Qed.
+Lemma worker_puts_length rt w base s : length (worker_puts rt w base s) <= length s + 4.
+Proof. unfold worker_puts. simpl. rewrite app_length. simpl. pose proof (emits_length rt w base s). lia. Qed.
 
 Lemma fw_all w l : Forall (fun q => qowner q = w) l -> fw w l = l.
 Proof.
@@ -169,11 +169,11 @@ Proof.
 Qed.
 
 (* a prefix of worker_puts that contains QStop is all of it *)
-Lemma stop_is_last w base s a b : a ++ b = worker_puts w base s -> In (QStop w) a -> b = [].
+Lemma stop_is_last rt w base s a b : a ++ b = worker_puts rt w base s -> In (QStop w) a -> b = [].
 Proof.
   unfold worker_puts. intros E Hin.
   assert (Hs : stopsq (a ++ b) = [w]).
-  { rewrite E. change (QStart w :: emits w base s ++ [QStop w]) with ([QStart w] ++ emits w base s ++ [QStop w]).
+  { rewrite E. change (QStart w :: emits rt w base s ++ [QStop w]) with ([QStart w] ++ emits rt w base s ++ [QStop w]).
     rewrite !stopsq_app, emits_nostop. reflexivity. }
   destruct b as [|q b]; [reflexivity|]. exfalso.
   assert (Hlast : exists b', q :: b = b' ++ [QStop w]).
@@ -273,7 +273,7 @@ Section Stream.
     sv_spawns : spawns (s_log c) = seq 0 (length (s_workers c));
     sv_own : forallb (own_thread K) (s_log c) = true;
     sv_workers : forall w todo, nth_error (s_workers c) w = Some todo ->
-        exists s, nth_error (si_suites i) w = Some s /\ fw w (putsq (s_log c)) ++ todo = worker_puts w base s;
+        exists s, nth_error (si_suites i) w = Some s /\ fw w (putsq (s_log c)) ++ todo = worker_puts (sroute i w) w base s;
     sv_fifo : forall w, fw w (gotten (s_log c) ++ s_queue c) = fw w (putsq (s_log c));
     sv_qown : Forall (fun q => qowner q < length (s_workers c)) (gotten (s_log c) ++ s_queue c);
     sv_deliv : forall w, map to3 (delivered w (s_log c)) ++ ev_of (fw w (pend_status c)) = ev_of (fw w (gotten (s_log c)));
@@ -314,7 +314,7 @@ Section Stream.
     spawns (s_log c) = seq 0 k ->
     forallb (own_thread K) (s_log c) = true ->
     (forall w todo, nth_error (s_workers c) w = Some todo ->
-        exists s, nth_error (si_suites i) w = Some s /\ fw w (putsq (s_log c)) ++ todo = worker_puts w base s) ->
+        exists s, nth_error (si_suites i) w = Some s /\ fw w (putsq (s_log c)) ++ todo = worker_puts (sroute i w) w base s) ->
     (forall w, fw w (gotten (s_log c) ++ s_queue c) = fw w (putsq (s_log c))) ->
     Forall (fun q => qowner q < k) (gotten (s_log c) ++ s_queue c) ->
     gotten (s_log c) = [] -> (forall w, delivered w (s_log c) = []) -> joins (s_log c) = [] ->
@@ -391,7 +391,7 @@ Section Stream.
     qowner q = w /\ w < length (s_workers c).
   Proof.
     intros HI Hn. destruct (sv_workers c HI w _ Hn) as (s & Hs & E). split.
-    - pose proof (worker_puts_owner w base s) as Ho. rewrite <- E in Ho. apply Forall_app in Ho as [_ Ho].
+    - pose proof (worker_puts_owner (sroute i w) w base s) as Ho. rewrite <- E in Ho. apply Forall_app in Ho as [_ Ho].
       inversion Ho; assumption.
     - apply nth_error_Some. congruence.
   Qed.
@@ -432,7 +432,7 @@ Section Stream.
   Lemma popped_done c v todo : SInv c -> In (QStop v) (gotten (s_log c)) -> nth_error (s_workers c) v = Some todo -> todo = [].
   Proof.
     intros HI Hin Hn. destruct (sv_workers c HI v _ Hn) as (s & Hs & E).
-    apply (stop_is_last v base s _ _ E). rewrite <- (sv_fifo c HI v), fw_app. apply in_or_app. left.
+    apply (stop_is_last (sroute i v) v base s _ _ E). rewrite <- (sv_fifo c HI v), fw_app. apply in_or_app. left.
     apply filter_In. split; [exact Hin | simpl; apply Nat.eqb_refl].
   Qed.
 
@@ -658,7 +658,7 @@ Section Stream.
         eapply Nat.le_lt_trans; [apply safter_spawn_bound|].
         cbn [s_queue s_workers]. rewrite todo_sum_app, todo_sum_single.
         unfold smeasure. rewrite Em. cbn [smw].
-        rewrite (sum_from_nth _ _ Es). pose proof (worker_puts_length k (si_base i) s). unfold sweight. lia.
+        rewrite (sum_from_nth _ _ Es). pose proof (worker_puts_length (sroute i k) k (si_base i) s). unfold sweight. lia.
       + destruct (option_eqb Nat.eqb (si_get_intr i) (Some (s_gets c))).
         * intro H; injection H as <-. unfold smeasure. rewrite Em. simpl. lia.
         * destruct (s_queue c) as [|q rest] eqn:Eq; [discriminate|]. intro H; injection H as <-.
@@ -734,12 +734,12 @@ Proof. destruct t; simpl; try reflexivity. apply Nat.eqb_refl. Qed.
 
 Lemma ev3_eqb_refl x : ev3_eqb x x = true.
 Proof.
-  destruct x as [[[a b] o] t]. unfold ev3_eqb. simpl. rewrite !Nat.eqb_refl, tstamp_eqb_refl. simpl.
-  destruct o; simpl; [rewrite Nat.eqb_refl; reflexivity | reflexivity].
+  destruct x as [[[a b] [o1 o2]] t]. unfold ev3_eqb, rcode_eqb, pair_eqb. simpl. rewrite !Nat.eqb_refl, tstamp_eqb_refl. simpl.
+  destruct o1, o2; simpl; rewrite ?Nat.eqb_refl; reflexivity.
 Qed.
 
 (* whatever a worker emits carries a timestamp: TimestampingStreamResult stamps what has none *)
-Lemma emits_has_ts w base s : Forall (fun e : nat * nat * option nat * tstamp => has_ts (snd e) = true) (ev_of (emits w base s)).
+Lemma emits_has_ts rt w base s : Forall (fun e : nat * nat * rcode * tstamp => has_ts (snd e) = true) (ev_of (emits rt w base s)).
 Proof.
   induction s as [|[id st own a|] r IH]; simpl.
   - constructor.
@@ -747,8 +747,14 @@ Proof.
   - destruct base; simpl; repeat constructor.
 Qed.
 
-Lemma prefix_has_ts (d : list (nat * nat * option nat * tstamp * bool)) rest l :
-  map to3 d ++ rest = l -> Forall (fun e : nat * nat * option nat * tstamp => has_ts (snd e) = true) l ->
+(* the model's worker sends exactly what the statement expects *)
+Lemma emits_clean rt w base s : ev_of (emits rt w base s) = sent_events rt base s.
+Proof.
+  induction s as [|[id st own a|] r IH]; simpl; [reflexivity | rewrite IH; reflexivity | destruct base; reflexivity].
+Qed.
+
+Lemma prefix_has_ts (d : list (nat * nat * rcode * tstamp * bool)) rest l :
+  map to3 d ++ rest = l -> Forall (fun e : nat * nat * rcode * tstamp => has_ts (snd e) = true) l ->
   forallb (fun x => has_ts (snd (fst x))) d = true.
 Proof.
   intros <- H. apply Forall_app in H as [H _]. apply forallb_forall. intros x Hx.
@@ -765,7 +771,7 @@ Proof.
   - destruct (IH k w H) as [H1 H2]. split; [lia | exact H2].
 Qed.
 
-Lemma ev_of_worker_puts w base s : ev_of (worker_puts w base s) = ev_of (emits w base s).
+Lemma ev_of_worker_puts rt w base s : ev_of (worker_puts rt w base s) = ev_of (emits rt w base s).
 Proof. unfold worker_puts. simpl. rewrite ev_of_app. simpl. apply app_nil_r. Qed.
 
 Theorem stream_meets_spec : forall i, spec_okb (IStream i) (model (IStream i)) = true.
@@ -797,21 +803,22 @@ Proof.
     destruct (nth_error (s_workers c) w) as [todo|] eqn:Enw; [|apply nth_error_None in Enw; lia].
     rewrite forallb_forall in Hwd. pose proof (Hwd _ (nth_error_In _ _ Enw)) as Htd. destruct todo; [|discriminate].
     destruct (Hwk w _ Enw) as (s' & Hs' & E). rewrite Hn in Hs'. injection Hs' as <-. rewrite app_nil_r in E.
-    assert (Hsplit : ev_of (fw w (gotten (s_log c))) ++ ev_of (fw w (s_queue c)) = ev_of (emits w (si_base i) s)).
+    assert (Hsplit : ev_of (fw w (gotten (s_log c))) ++ ev_of (fw w (s_queue c)) = ev_of (emits (sroute i w) w (si_base i) s)).
     { rewrite <- ev_of_app, <- fw_app, Hfifo, E. apply ev_of_worker_puts. }
     specialize (Hdl w). simpl in Hdl. rewrite app_nil_r in Hdl.
     assert (Hts : forallb (fun x => has_ts (snd (fst x))) (delivered w (s_log c)) = true).
-    { apply (prefix_has_ts _ (ev_of (fw w (s_queue c))) (ev_of (emits w (si_base i) s))); [|apply emits_has_ts].
+    { apply (prefix_has_ts _ (ev_of (fw w (s_queue c))) (ev_of (emits (sroute i w) w (si_base i) s))); [|apply emits_has_ts].
       rewrite Hdl. exact Hsplit. }
-    unfold stream_worker_okb. rewrite Hts. simpl.
+    unfold stream_worker_okb. fold (sroute i w). rewrite Hts. simpl.
     change (map (fun x => fst x) (delivered w (s_log c))) with (map to3 (delivered w (s_log c))).
+    rewrite <- (emits_clean (sroute i w) w (si_base i) s).
     rewrite Hdl, <- Hsplit. rewrite (is_prefix_app _ ev3_eqb_refl). simpl.
     destruct (s_raised c) eqn:Er; [reflexivity|]. simpl.
     destruct (Hnr eq_refl) as [_ Hun].
     assert (Hm : memb w (joins (s_log c)) = true) by (eapply unreaped_nil_all; [exact Hun | exact HwKlt]).
     rewrite Hjo in Hm. apply stopsq_in in Hm.
     assert (Hq : fw w (s_queue c) = []).
-    { apply (stop_is_last w (si_base i) s (fw w (gotten (s_log c)))).
+    { apply (stop_is_last (sroute i w) w (si_base i) s (fw w (gotten (s_log c)))).
       - rewrite <- fw_app, Hfifo. exact E.
       - apply filter_In. split; [exact Hm | simpl; apply Nat.eqb_refl]. }
     rewrite Hq. simpl. rewrite app_nil_r.
